@@ -148,10 +148,10 @@ noncomputable def exQ : Problem ℝ where
   residual := fun x => some (x.map (· - 2))
   norm := { value := fun r => some (1 / 2 * dot r r),
             gradHess := fun r proj => some (proj.map (fun row => dot row r), [[1]]) }
-  boxQP := fun _ _ db =>
+  boxQP := fun w _ _ db =>
     match db with
-    | some ([dl], [du]) => if dl ≤ 0 ∧ 0 ≤ du then some (.ok [0]) else some .failed
-    | _ => some .failed
+    | some ([dl], [du]) => if dl ≤ 0 ∧ 0 ≤ du then some (.ok [0]) else some (.failed w)
+    | _ => some (.failed w)
 
 theorem exQ_box : BoxProblem exQ [0] [1] where
   bounds := rfl
@@ -167,7 +167,7 @@ theorem exQ_box : BoxProblem exQ [0] [1] where
     rw [max_eq_left (by rw [abs_of_nonneg h1]; exact h2)]
     simp [exQ]; norm_num
   qp := by
-    intro H g dl du dx h
+    intro w H g dl du dx h
     simp only [exQ] at h
     match dl, du, h with
     | [a], [b], h =>
@@ -187,7 +187,7 @@ theorem exQ_box : BoxProblem exQ [0] [1] where
 theorem exQ_descent : DescentProblem exQ where
   hc1 := by simp [exQ]
   descent := by
-    intro H g db dx h
+    intro w H g db dx h
     simp only [exQ] at h
     split at h
     · split_ifs at h
